@@ -63,6 +63,79 @@ Section WithEnv.
     destruct (N.eqb_spec (lenN got) (ehdr_size c)); [lia|]. cbn [negb]. eauto.
   Qed.
 
+  (* a table entry that is not completely inside the stream reads as an empty section: every field zero *)
+  Definition hdr_all_zero (r : section) : Prop :=
+    sh_name r = 0 /\ sh_type r = 0 /\ sh_flags r = 0 /\ sh_addr r = 0 /\ sh_offset r = 0 /\ sh_size r = 0 /\
+    sh_link r = 0 /\ sh_info r = 0 /\ sh_addralign r = 0 /\ sh_entsize r = 0 /\ s_data r = None.
+
+  Lemma zero_header_fields c enc idx ss lazy :
+    let s0 := with_index (new_section c) idx in
+    let z := sec_with_raw enc (with_stream_size s0 ss) (repeatN 0 (shdr_size (s_cls s0))) in
+    hdr_all_zero (with_load_flags z lazy (s_loaded z) (s_can_load z)).
+  Proof. destruct c, enc; repeat split. Qed.
+
+  Lemma short_read st (pos : N) n :
+    is_fail st = false -> st_inv st -> pos < 2 ^ 63 -> lenN (is_content st) < pos + n -> 0 < n ->
+    lenN (snd (read (seekg st (to_signed64 pos)) n)) <> n.
+  Proof.
+    intros Hf Hi Hp Hout Hn. destruct (to_of_signed pos Hp) as [T1 T2].
+    unfold seekg. rewrite Hf. destruct (Z.ltb_spec (to_signed64 pos) 0); [lia|]. rewrite T1.
+    assert (Hs : forall st2, is_content st2 = is_content st -> is_pos st2 = pos -> lenN (snd (read st2 n)) <> n).
+    { intros st2 Hc Hps. unfold read. destruct (is_fail st2); [cbn; lia|].
+      assert (L : lenN (sliceN (is_content st2) (is_pos st2) n) < n).
+      { unfold sliceN. rewrite lenN_firstnN, lenN_skipnN, Hc, Hps. lia. }
+      destruct (_ <? n); cbn [snd]; lia. }
+    destruct (is_kind st).
+    - destruct (N.ltb_spec (is_len st) pos).
+      + unfold read. cbn [is_fail snd lenN]. lia.
+      + apply Hs; reflexivity.
+    - apply Hs; reflexivity.
+  Qed.
+
+  Theorem section_load_cut_entry_is_empty st enc c idx (pos : N) lazy :
+    is_fail st = false -> st_inv st -> pos < 2 ^ 63 -> lenN (is_content st) < pos + shdr_size c ->
+    exists st' r,
+      section_load junk st [] enc (with_index (new_section c) idx) (Z.of_N pos) lazy = Ok (st', r, []) /\ hdr_all_zero r.
+  Proof.
+    intros Hf Hi Hp Hout. rewrite section_load_unfold. cbn [xlat_empty xlat_apply].
+    unfold section_load_rest. cbn [xlat_apply]. set (s0 := with_index (new_section c) idx).
+    assert (E1 : seekg_end st = mkIstream (is_kind st) (is_content st) (is_len st) false (is_len st)).
+    { unfold seekg_end. now rewrite Hf. }
+    rewrite E1. set (st1 := mkIstream (is_kind st) (is_content st) (is_len st) false (is_len st)).
+    assert (Hz : Z.of_N pos = to_signed64 pos).
+    { unfold to_signed64. rewrite N.mod_small by lia. destruct (N.ltb_spec pos (2 ^ 63)); lia. }
+    rewrite Hz. change (s_cls s0) with c.
+    pose proof (short_read st1 pos (shdr_size c) eq_refl Hi Hp Hout ltac:(destruct c; vm_compute; reflexivity)) as Hsh.
+    destruct (read (seekg st1 (to_signed64 pos)) (shdr_size c)) as [st3 got] eqn:ER. cbn [snd] in Hsh.
+    destruct (N.eqb_spec (lenN got) (shdr_size c)); [contradiction|]. cbn [negb].
+    eexists _, _. split; [reflexivity|]. apply zero_header_fields.
+  Qed.
+
+  (* C17, section header table: entry [pos .. pos + size) of a file, read from any prefix of the file, is reported
+     either with exactly the fields the complete file yields or as an empty section (every field zero, no data) *)
+  Theorem prefix_section_header_absent_or_identical k (f : bytes) n enc c idx (pos : N) lazy s' :
+    pos < 2 ^ 63 -> pos + shdr_size c <= lenN f -> s_cls s' = c -> shdr_wf s' ->
+    sliceN f pos (shdr_size c) = shdr_bytes enc s' ->
+    exists st' r al,
+      section_load junk (open_istream k (firstnN f n)) [] enc (with_index (new_section c) idx) (Z.of_N pos) lazy = Ok (st', r, al) /\
+      ((sh_name r = sh_name s' /\ sh_type r = sh_type s' /\ sh_flags r = sh_flags s' /\ sh_addr r = sh_addr s' /\
+        sh_offset r = sh_offset s' /\ sh_size r = sh_size s' /\ sh_link r = sh_link s' /\ sh_info r = sh_info s' /\
+        sh_addralign r = sh_addralign s' /\ sh_entsize r = sh_entsize s') \/ hdr_all_zero r).
+  Proof.
+    intros Hp Hin Hc Hwf Hsl.
+    destruct (N.le_gt_cases (pos + shdr_size c) n) as [Hle|Hgt].
+    - assert (Hsl' : sliceN (firstnN f n) pos (shdr_size c) = shdr_bytes enc s').
+      { rewrite <- Hsl. unfold sliceN. rewrite !firstnN_firstn, !skipnN_skipn.
+        rewrite skipn_firstn_comm, firstn_firstn. f_equal. lia. }
+      destruct (section_load_reports junk (open_istream k (firstnN f n)) enc c idx pos lazy s' eq_refl eq_refl Hp
+                  ltac:(cbn [is_content open_istream]; rewrite lenN_firstnN_min; lia) Hc Hwf Hsl')
+        as (st' & r & al & E & A1 & A2 & A3 & A4 & A5 & A6 & A7 & A8 & A9 & A10 & _).
+      exists st', r, al. split; [exact E|]. left. repeat split; assumption.
+    - destruct (section_load_cut_entry_is_empty (open_istream k (firstnN f n)) enc c idx pos lazy eq_refl eq_refl Hp
+                  ltac:(cbn [is_content open_istream]; rewrite lenN_firstnN_min; lia)) as (st' & r & E & Z).
+      exists st', r, []. split; [exact E|]. right. exact Z.
+  Qed.
+
   (* C17: the header of a truncated file.  Whatever prefix of a file with a decodable header is loaded, either the
      load reports failure, or the object reports exactly the header the complete file yields *)
   Theorem prefix_header_absent_or_identical el k (f : bytes) n lazy h :
